@@ -1268,3 +1268,54 @@ def check_dup_backlinks(chk, prog, unit="dlinked_list.c", only=None, rule="L7"):
                       "the chain, typically): walking the copy backwards from its tail stops there" % f.name,
                proof="every node created through X->next has a store to its prev before the return")
     return n
+
+
+def check_bisection(chk, prog, fns, noreturn, rule="Q1"):
+    """Bisection loops: every way out of the loop other than a match is the loop condition itself - an extra `break` must be
+    redundant with it (lo > hi at that point), otherwise candidates between lo and hi are abandoned unexamined and an element
+    that is stored is reported missing.  Decided by CAP at each break of a loop that halves an interval."""
+    from .cap import Cap
+    from .capcheck import run_cap
+
+    def bisection_loops(f):
+        out = []
+        for lp in walk(f.body):
+            if lp.get("k") in ("for", "while") and lp.get("cond") is not None and lp.get("body") is not None:
+                c = X.strip(lp["cond"])
+                if c.get("k") == "bin" and c.get("op") in ("<=", "<", ">=", ">") and \
+                        any(y.get("k") == "bin" and y.get("op") in ("/", ">>") and X.const_val(y["ch"][1]) in (1, 2) for y in walk(lp["body"])):
+                    out.append(lp)
+        return out
+
+    class BisectCap(Cap):
+        def on_break(self, n, st):
+            if not self.loop_stack or not self.record:
+                return
+            lp = self.loop_stack[-1]
+            if not any(lp is b for b in self.bisect):
+                return
+            c = X.strip(lp["cond"])
+            s0 = st.copy()
+            rs = self.record
+            self.record = False
+            try:
+                la = self.ev(c["ch"][0], s0)
+                lb = self.ev(c["ch"][1], la[0][0]) if len(la) == 1 else []
+            finally:
+                self.record = rs
+            if len(la) != 1 or len(lb) != 1 or la[0][1][0] != "i" or lb[0][1][0] != "i":
+                return
+            a, b = la[0][1][1], lb[0][1][1]
+            goal = {"<=": a - b - 1, "<": a - b, ">=": b - a - 1, ">": b - a}[c["op"]]
+            self.oblige(st, "exit", n, goal, "the loop is left while `%s` still holds: the candidates in between are never examined" % X.render(c)[:40])
+    bis_fns = [f for f in fns if f.cfg is not None and bisection_loops(f)]
+    if not bis_fns:
+        return 0, 0
+
+    def bfactory(p):
+        cp = BisectCap(p, noreturn=noreturn)
+        cp.bisect = [lp for f in bis_fns for lp in bisection_loops(f)]
+        return cp
+    chk.rule(rule, "a bisection loop is left only through its condition or a match (an extra break is redundant with the condition)")
+    nq, nundq, _sq = run_cap(chk, prog, bis_fns, rule=rule, noreturn=noreturn, cap_factory=bfactory, kinds={"exit"})
+    return len(bis_fns), nundq
